@@ -148,7 +148,15 @@ pub fn stress_snapshots(trace_path: &str, workers: usize, secs: u64) {
         }
         let i = rng.below(4);
         let v = variants[i][rng.below(variants[i].len())];
-        let p = dir.join(fname(files[i]));
+        // the owner names the file by one of its spellings (spec/ZySession.tla: the state is per file, not per spelling)
+        let p = match rng.below(3) {
+            | 0 => dir.join(fname(files[i])),
+            | 1 => dir.join(".").join(fname(files[i])),
+            | _ => {
+                let _ = std::fs::create_dir_all(dir.join("sub"));
+                dir.join("sub").join("..").join(fname(files[i]))
+            }
+        };
         let t1 = Instant::now();
         if rng.chance(1, 2) {
             session.set_overlay(&p, text(v).to_string()).unwrap();
